@@ -239,3 +239,12 @@ def script_replay(method, backward, failed, kind):
     except ImportError:
         return None, "", "scripted replay not available"
     return replay_script.confirm(method, backward, failed, kind)
+
+
+def handler_replay(failed):
+    """Native confirmation of an output-handler violation: see rsym/replay_handler.py."""
+    try:
+        from . import replay_handler
+    except ImportError:
+        return None, "", "handler replay not available"
+    return replay_handler.confirm(failed)
